@@ -309,7 +309,7 @@ func c02SessionLink(c *Ctx, rule string) {
 	for _, b := range fn.Blocks {
 		for _, in := range b.Instrs {
 			call, ok := in.(*ssa.Call)
-			if !ok || call.Call.StaticCallee() == nil || call.Call.StaticCallee().Name() != "handleRequest" {
+			if !ok || !isFn(call.Call.StaticCallee(), "", "ServerSession.handleRequest") {
 				continue
 			}
 			// the *ServerSession result
